@@ -302,10 +302,25 @@ pub fn evaluate<P: Property + 'static>(p: &'static P, case: P::Case) -> Vec<(Str
             }
         }
     };
+    // The function name inside a panic signature comes from the backtrace, and the nightly / ASan build of the fuzz
+    // targets inlines differently from the stable build (the same panic at braille.rs:112 is attributed to
+    // `highlight_first_indicator` there and to `index` here): under the fuzzer a panic also counts as listed when a
+    // listed panic of the same file has the same (masked) message.
+    fn loose(sig: &str) -> Option<(String, String)> {
+        let rest = sig.strip_prefix("panic:").or_else(|| sig.strip_prefix("pre-rules:panic:"))?;
+        let (file, tail) = rest.split_once("::")?;
+        let (_func, msg) = tail.split_once(':')?;
+        Some((file.to_string(), msg.trim_end_matches('*').chars().take(40).collect()))
+    }
     let mut unknown = vec![];
     for (sig, detail) in outcome.violations() {
         if known_match(known, p.id(), &sig).is_some() {
             continue;
+        }
+        if let Some((file, msg)) = loose(&sig) {
+            if known.iter().any(|k| k.property == p.id() && k.status == "known" && loose(&k.signature).map(|(f, m)| f == file && (m.starts_with(&msg) || msg.starts_with(&m))).unwrap_or(false)) {
+                continue;
+            }
         }
         write_replay(p.id(), &format!("fuzz-{}", sig), &detail, &p.to_json(&case), true);
         unknown.push((sig, detail));
